@@ -14,6 +14,9 @@ TX = [(r'dtn://far/.*', None), (r'ipn:9\..*', None), (r'dtn://rpt/.*', None),
 SRCS = [A.dtn('//src/'), {'ipn': [4, 1]}, A.dtn('//other/app')]
 DESTS = [A.dtn('//far/x'), A.dtn('//far/y/z'), {'ipn': [9, 3]}, A.dtn('//far/small')]
 ANYREQ = A.F_DEL | A.F_DLV | A.F_FWD | A.F_RCV
+# bundle processing control flags that have a name in PrimaryBlock.Flag; every other bit is reserved / unassigned
+NAMED_FLAGS = ANYREQ | A.F_TIME | 0x20 | A.F_NOFRAG | A.F_ADMIN | A.F_FRAG
+RESERVED_BITS = [0x8, 0x10, 0x80, 0x100, 0x200, 0x800, 0x1000, 0x2000, 0x8000, 0x80000, 0x100000, 0x200000]
 
 
 def noncanon_uint(n, rng):
@@ -53,7 +56,13 @@ def gen_bundle(rng, seq, mode=None):
     elif mode == 'nullrpt':
         rpt_none, rpt = True, 'none'
         flags = rng.choice([0, A.F_FWD, ANYREQ])
-    p = A.mk_pri(rng.choice(DESTS), rng.choice(SRCS), [create, seq], flags=flags, ct=rng.choice([0, 1, 2]),
+    pct = rng.choice([0, 1, 2])
+    if rng.random() < 0.12:
+        # reserved / unassigned flag bits (a forwarder must not drop them); half of them under primary CRC type 0,
+        # which RFC 9171 allows when a BIB covers the primary block
+        flags |= rng.choice(RESERVED_BITS) | rng.choice([0] + RESERVED_BITS)
+        pct = rng.choice([0, 0, pct])
+    p = A.mk_pri(rng.choice(DESTS), rng.choice(SRCS), [create, seq], flags=flags, ct=pct,
                  rpt=rpt, life=life)
     if mode == 'nullrpt':
         # a CBOR null report-to under a primary CRC is rejected at the CRC gate (the CRC is checked over a
@@ -213,6 +222,8 @@ def monitors(chk, case, obs, only=None):
                 sig = 'C11:lifetime-zero-rewritten'
             elif diffs == ['rpt'] and rrpt is None:
                 sig = 'C11:absent-report-to-rewritten'
+            elif diffs == ['flags'] and p['flags'] & ~NAMED_FLAGS:
+                sig = 'C11:reserved-flag-bits-dropped'
             else:
                 sig = 'C11:primary-changed'
             chk.violation(sig, '%s: primary fields %s changed: received %s forwarded %s'
@@ -274,6 +285,11 @@ def monitors(chk, case, obs, only=None):
                 chk.violation('C11:negative-age-on-wire',
                               '%s: creation time %d is ahead of the node clock %d: the age block carries %s '
                               '(not an unsigned integer)' % (tag, p['ts'][0], fwd_now, got), rj)
+            elif want < 0 and got != 0:
+                # the age reflects time since creation: no time has passed since a creation in the future
+                chk.violation('C11:future-creation-age-not-zero',
+                              '%s: creation time %d is %d ms ahead of the node clock %d, yet the age block says %s '
+                              '(expected 0)' % (tag, p['ts'][0], -want, fwd_now, got), rj)
         # other blocks untouched
         for k in b['blocks']:
             if k['t'] in (1, 6, 7, 10):
@@ -330,6 +346,14 @@ def w_d11():       # wD11
 
 def w_life0():     # wLife0
     return _w('witness-life0', [], life=0)
+
+
+def w_resflags():  # reserved flag bit 0x200000 next to NO_FRAGMENT, primary CRC type 0 (example in Props/C11.lean)
+    return _w('witness-reserved-flags', [], flags=0x200004)
+
+
+def w_future():    # wFuture: creation time 1 s ahead of the node clock (W_NOW = 9000)
+    return _w('witness-future', [], ts=(10000, 0))
 
 
 def w_dupprev():   # wDupPrev
@@ -420,7 +444,7 @@ def run(chk):
     chk.cov['rule'] = ('received bundles routed forward: 0..3 previous-node (incl. malformed BTSD), 0..2 hop-count, '
                        '0..3 age, 0..2 unknown extension blocks in any order, block numbers drawn from '
                        '{2..13,24,255,256,300,65536}, CRC type 0/1/2 per block, creation time past/0/future, '
-                       'lifetime 0, report flags, null report-to, admin-record payloads (canonical / non-shortest), '
+                       'lifetime 0, report flags, reserved flag bits (primary CRC 0/1/2), null report-to, admin-record payloads (canonical / non-shortest), '
                        'duplicate block numbers (two or three equal, extension block numbered 1 or 0, payload sharing a '
                        'number), '
                        'fragments, malformed layouts (payload not last / not numbered 1 / absent), transmit routes '
@@ -441,7 +465,7 @@ def run(chk):
     if corpus:
         run_cases(chk, corpus)
     cases = [mk_case([w()], now0=W_NOW - 3) for w in (w_d10, w_d11, w_life0, w_dupprev, w_dupage, w_adminnc, w_dupnum,
-                                                               w_dupnum_pay)]
+                                                               w_dupnum_pay, w_resflags, w_future)]
     n = 700 if chk.tier == 'quick' else 30000
     seq = 0
     for i in range(n):
